@@ -5,7 +5,7 @@ EXTENDS SigDb, Json
 CONSTANT Depth
 VARIABLE hist
 D(id, n, enc, der, derlen, ts) == [id |-> id, len |-> n, enc |-> enc, der |-> der, derlen |-> derlen, types |-> ts]
-MCData == { D("h1", 32, "raw", "h1", 32, {"sha256"}), D("h2", 32, "raw", "h2", 32, {"sha256"}),
+MCData == { D("h1", 32, "raw", "h1", 32, {"sha256", "sha1"}),      \* the same bytes enrolled under two signature types are two different entries D("h2", 32, "raw", "h2", 32, {"sha256"}),
             D("h31", 31, "raw", "h31", 31, {"sha256"}),
             D("c1", 700, "raw", "c1", 700, {"x509"}), D("c2", 700, "raw", "c2", 700, {"x509"}),
             D("c3", 900, "raw", "c3", 900, {"x509"}),
